@@ -31,7 +31,7 @@ def gen_trace(recipe):
   ref = lifecycle.reference(lifecycle.World(recipe['est'], recipe['seed'], **kw))
   w = lifecycle.World(recipe['est'], recipe['seed'], **kw)
   events = lifecycle.run(w, recipe['ops'])
-  return {'est': recipe['est'], 'dims': w.dims, 'has_threshold': w.has_thr, 'ref': ref, 'events': events,
+  return {'est': recipe['est'], 'dims': w.dims, 'canon': w.canon, 'has_threshold': w.has_thr, 'ref': ref, 'events': events,
           'qnames': w.qnames}
 
 
@@ -40,9 +40,9 @@ def signature_of(recipe, tr, clause, pos):
   return {'estimator': recipe['est'], 'event': e.get('ev')}
 
 
-def write_cfg(path, has_thr, nq, depth, maxobjs=3, maxh=2):
+def write_cfg(path, has_thr, nq, depth, maxobjs=3, maxh=2, fit_transform=True):
   with open(path, 'w') as f:
-    f.write('CONSTANTS Params = {1, 2}\n Data = {1, 2}\n Dim <- DimOf\n Thresholds = {1, 2}\n ValSets = {1, 2}\n'
+    f.write('CONSTANTS Params = {1, 2, 3}\n Data = {1, 2}\n Dim <- DimOf\n Canon <- CanonOf\n HasFitTransform = %s\n Thresholds = {1, 2}\n ValSets = {1, 2}\n' % ('TRUE' if fit_transform else 'FALSE') +
             ' Strategies = {1, 2}\n Queries = {%s}\n HasThreshold = %s\n MaxObjs = %d\n MaxHandles = %d\n Depth = %d\n'
             % (', '.join(str(i) for i in range(1, nq + 1)), 'TRUE' if has_thr else 'FALSE', maxobjs, maxh, depth))
     f.write('SPECIFICATION Spec\nVIEW View\nCONSTRAINT BoundedDepth\n')
@@ -50,14 +50,14 @@ def write_cfg(path, has_thr, nq, depth, maxobjs=3, maxh=2):
       f.write('INVARIANT %s\n' % i)
     for i in ['OnlyFitChangesModel', 'OnlyThreeActionsChangeThreshold', 'OnlySetParamsChangesParams',
               'OnlyFitAndCalibrateChangePreprocessorInForce',
-              'HandlesImmutable', 'ObjectsNeverDisappear', 'FitIsHistoryIndependent']:
+              'HandlesImmutable', 'ObjectsNeverDisappear', 'FitIsHistoryIndependent']:      # + VerboseIsTransparent (invariant)
       f.write('PROPERTY %s\n' % i)
     f.write('CHECK_DEADLOCK FALSE\n')
 
 
-def histories(ctx, has_thr, nq, num, depth, tag):
+def histories(ctx, has_thr, nq, num, depth, tag, fit_transform=True):
   cfg = os.path.join(ctx.work, 'SIM_%s.cfg' % tag)
-  write_cfg(cfg, has_thr, nq, depth)
+  write_cfg(cfg, has_thr, nq, depth, fit_transform=fit_transform)
   simdir = os.path.join(ctx.work, 'sim_' + tag)
   os.makedirs(simdir, exist_ok=True)
   ctx.model('MC_Lifecycle', cfg, workers=1, simulate='file=%s/h,num=%d' % (simdir, num), must_complete=False,
@@ -84,7 +84,9 @@ def directed_ops(name):
   h = [['New', 1], ['Fit', 1, 1], ['GetMetric', 1], ['GetMatrix', 1], ['Fit', 1, 2], ['CallHandle', 1],
        ['CallHandle', 2], ['Mutate', 2], ['Query', 1, 1], ['Query', 1, 4], ['Pickle', 1], ['Query', 2, 2],
        ['Clone', 1], ['Fit', 3, 2], ['Query', 3, 3], ['SetParams', 1, 2], ['Fit', 1, 1], ['Fit', 1, 1],
-       ['Query', 1, 5], ['New', 2], ['Query', 4, 1]]
+       ['Query', 1, 5], ['New', 2], ['Query', 4, 1], ['New', 3], ['Fit', 5, 1], ['Query', 5, 1], ['Query', 5, 2]]
+  if hasattr(gen.CLS[name], 'fit_transform'):
+    h += [['FitTransform', 5, 2], ['Query', 5, 1], ['FitTransform', 1, 1]]
   if name in lifecycle.PAIR_CLASSIFIERS:
     h += [['SetThreshold', 1, 2], ['Query', 1, 6], ['Calibrate', 1, 1, 2], ['Query', 1, 8], ['Fit', 1, 2],
           ['Query', 1, 6], ['SetThreshold', 4, 1], ['Calibrate', 4, 1, 1]]
@@ -99,8 +101,9 @@ def run(ctx):
     ctx.model('MC_Lifecycle', cfg, tag='MC_Lifecycle_' + tag)
   num = 40 if ctx.quick else 400
   depth = 14 if ctx.quick else 22
-  hs = {'thr': histories(ctx, True, 8, num, depth, 'thr'), 'tuples': histories(ctx, False, 8, num, depth, 'tuples'),
-        'plain': histories(ctx, False, 5, num * 2, depth, 'plain')}
+  hs = {'thr': histories(ctx, True, 8, num, depth, 'thr', fit_transform=False),
+        'tuples': histories(ctx, False, 8, num, depth, 'tuples', fit_transform=False),
+        'plain': histories(ctx, False, 5, num * 2, depth, 'plain', fit_transform=True)}
   rng = np.random.default_rng(ctx.seed + 17)
   rs = []
   counters = {'thr': 0, 'tuples': 0, 'plain': 0}
